@@ -464,23 +464,27 @@ def c17_post_step(state):
     return hook
 
 
-def continuation_oracle():
-    """valid steps right after a rejected request are judged by the ordinary transition oracles, under C17"""
+def continuation_oracle(prop="C17", trigger=None, horizon=2):
+    """valid steps right after a trigger step (default: a rejected request) are judged by the ordinary transition
+    oracles and reported under `prop` with mode prefix continuation-"""
     from pwv import oracles as O
     st = {"since": 99}
+    trigger = trigger or (lambda rec: bool(rec.step.get("fault")))
 
     def judge(rec):
-        if rec.step.get("fault"):
+        if trigger(rec):
             st["since"] = 0
             return []
+        if rec.step.get("dead_probe"):
+            return []
         st["since"] += 1
-        if st["since"] > 2:
+        if st["since"] > horizon:
             return []
         out = []
-        for vs in (O.judge_apply(rec, "C01"), O.judge_apply(rec, "C03"), O.judge_c06(rec)):
+        for vs in (O.judge_apply(rec, "C01"), O.judge_apply(rec, "C03"), O.judge_c06(rec), O.judge_c02(rec)):
             for v in vs:
                 v = dict(v)
-                v["prop"] = "C17"
+                v["prop"] = prop
                 if v["status"] == "violated":
                     v["mode"] = "continuation-" + v["mode"]
                 v["cell"] = ("continuation",) + tuple(v["cell"] or ())
